@@ -145,6 +145,14 @@ def real_case(case):
         shutil.rmtree(d, ignore_errors=True)
 
 
+def _encodable(ch, enc):
+    try:
+        ch.encode(enc)
+        return True
+    except UnicodeEncodeError:
+        return False
+
+
 def reuse_case(case):
     """HISTORY: one Local runner object runs several commands in a row, each with its own input text: every command
     must receive exactly its own text followed by EOF"""
@@ -158,6 +166,29 @@ def reuse_case(case):
             return "run %d on one runner object: a command reading to EOF did not terminate" % i
         if res.stdout != text:
             return "run %d on one runner object: the command received %r, its input was %r" % (i, res.stdout[:40], text[:40])
+    return None
+
+
+def reuse_stream_case(case):
+    """HISTORY: one (scripted) runner object runs several commands in a row, each with its own input text AND its own
+    encoding: every command must receive exactly its own text in ITS OWN encoding, then EOF once"""
+    from fakerunner import Scripted
+
+    class UntilClosed(Scripted):
+        @property
+        def process_is_finished(self):
+            return self.stdin_closed > 0
+
+    r = UntilClosed(pty=False)
+    for i, (text, enc) in enumerate(case["runs"]):
+        r.stdin_writes, r.stdin_closed = [], 0
+        r._out, r._err, r._drained = [], [], {"out": False, "err": False}
+        r.run("cmd", in_stream=io.StringIO(text), hide=True, encoding=enc, echo_stdin=False)
+        got = b"".join(r.stdin_writes)
+        if got != text.encode(enc):
+            return "run %d on one runner object (encoding %s): the command received %r, its input was %r" % (i, enc, got, text.encode(enc))
+        if r.stdin_closed != 1:
+            return "run %d on one runner object: stdin closed %d times" % (i, r.stdin_closed)
     return None
 
 
@@ -219,6 +250,8 @@ def replay(case):
         why = guarded(real_case, case)
     elif k == "reuse":
         why = guarded(reuse_case, case)
+    elif k == "reuse_stream":
+        why = guarded(reuse_stream_case, case)
     elif k == "async":
         why = guarded(async_case, case)
     elif "sched" in case:
@@ -250,6 +283,15 @@ def run(ctx):
                 extra.append({"kind": "real", "text": t, "bytes": b, "cmd": cmd})
     extra.append({"kind": "reuse", "texts": ["one\n", "two é\n", "", "three\n"]})
     extra.append({"kind": "reuse", "texts": ["", "x"]})
+    encs = ["utf-8", "latin-1", "cp1252", "utf-16-le", "cp1251", "utf-8"]
+    pool = "aé ñoz\n€яx5"
+    for _ in range(ctx.n(40, 400)):
+        runs = []
+        for _ in range(rng.randint(2, 4)):
+            enc = rng.choice(encs)
+            ok = [ch for ch in pool if _encodable(ch, enc)]
+            runs.append(["".join(rng.choice(ok) for _ in range(rng.randint(0, 8))), enc])
+        extra.append({"kind": "reuse_stream", "runs": runs})
     for how in ("sys.stdin", "explicit"):
         extra.append({"kind": "async", "how": how, "text": "hello é\n"})
     for c in extra:
